@@ -601,6 +601,15 @@ Section Variants.
         let (s', x) := step H (ms st) OReopen in
         let st1 := FS s' (fidx st) (dlabel st) (dlabel st) skip [] [] in
         (match x with XOk => enable_loaded st1 | _ => st1 end, x)
+    | FOpenAt skip v =>
+        let fresh := MState None 0 None (forest (ms st)) (init_ver (ms st))
+                            (init_opt (ms st)) (init_opt (ms st)) in
+        let st0 := FS fresh (fidx st) (dlabel st) (dlabel st) skip [] [] in
+        let (s', x) := step H fresh (OLoad v) in
+        (match x with
+         | XInt _ => enable_loaded (with_ms st0 s')
+         | _ => with_ms st0 s'
+         end, x)
     | FLoad v =>
         let (s', x) := step H (ms st) (OLoad v) in
         (match x with
@@ -634,16 +643,12 @@ Section Variants.
     | _ => fstep H st o
     end.
 
-  (** a new tree object on the same database that has NOT called Load() yet (NewMutableTree);
-      the model's [FOpen] is this followed by Load() *)
-  Definition fresh_object (st : fstate) (skip : bool) : fstate :=
-    FS (MState None 0 None (forest (ms st)) (init_ver (ms st)) (init_opt (ms st)) (init_opt (ms st)))
-       (fidx st) (dlabel st) (dlabel st) skip [] [].
-
-  (** Within the operations of the model the variant (b) cannot be observed: every rebuild of a
-      coherent state happens with the latest version loaded ([FOpen] loads the latest version
-      before anything else, a later [FLoad] finds the label current, and
-      LoadVersionForOverwriting rebuilds after the later versions are gone). *)
+  (** With the operations of an OPEN tree object the variant (b) cannot be observed: every
+      rebuild of a coherent state happens with the latest version loaded ([FOpen] loads the
+      latest version before anything else, a later [FLoad] finds the label current, and
+      LoadVersionForOverwriting rebuilds after the later versions are gone).  Only [FOpenAt]
+      (a new object that loads an old version first) exposes it:
+      [rebuild_from_loaded_refuted]. *)
   Lemma enable_loaded_eq st :
     (upgradeable st = true -> version (ms st) = latest_version (ms st)) ->
     enable_loaded st = enable_if_needed st.
@@ -663,10 +668,12 @@ Section Variants.
   Qed.
 
   Theorem rebuild_from_loaded_unobservable st o :
+    is_openat o = false ->
     contig (ms st) -> in_contract (ms st) (logical o) -> fcoh st ->
     fstep_loaded st o = fstep H st o.
   Proof.
-    intros C IC Co. destruct o; try reflexivity; cbn [fstep_loaded fstep].
+    intros NO C IC Co. destruct o; try reflexivity; try discriminate NO;
+      cbn [fstep_loaded fstep].
     - destruct (reopen_spec H (ms st) C) as (E & _ & _ & _ & EL & _ & _ & _ & EV & _).
       rewrite E. rewrite enable_loaded_eq; [reflexivity|]. intros _. cbn [ms]. congruence.
     - cbn [step]. destruct (do_load_cases (ms st) v) as [E|[(F & _ & E)|(tv & r & L & E)]];
@@ -750,86 +757,134 @@ Theorem drop_label_refuted :
     last (snd (frun sha256 st0 ops)) XErr = XBytes (Some xvc).
 Proof. exists ops_drop. vm_compute. repeat split; reflexivity. Qed.
 
-(** (b) If the index were rebuilt from the loaded tree (labelled with the latest version), a
-    tree object that loads an old version FIRST (NewMutableTree + LoadVersion(1), no Load())
-    would serve version 1's values for version 2.  The model's own [FOpen] always loads the
-    latest version first, which is why the variant cannot be observed with the model's
-    operations alone ([rebuild_from_loaded_unobservable]); the witness therefore starts from
-    [fresh_object]. *)
-Definition ops_before : list fop := [FSet xk1 xva; FSave; FSet xk1 xvb; FSave].
-Definition ops_after : list fop := [FLoad 1; FGetImm 2 xk1; FGetVersioned xk1 2].
+(** (b) If the index were rebuilt from the loaded tree (stamped with its version, labelled with
+    the latest version, as upstream did), a new tree object that loads an old version first
+    would serve version 1's values for version 2: index off, two commits, then
+    [FOpenAt false 1]. *)
+Definition ops_loaded : list fop :=
+  [FSet xk1 xva; FSave; FSet xk1 xvb; FSave; FOpenAt false 1; FGetImm 2 xk1;
+   FGetVersioned xk1 2].
 
 Theorem rebuild_from_loaded_refuted :
-  exists (ops1 ops2 : list fop),
-    let st1 := fresh_object (fst (frun sha256 (st_off sha256) ops1)) false in
-    frun_okb sha256 (st_off sha256) ops1 = true /\
-    snd (frun_with (fstep_loaded sha256) st1 ops2) =
-      [XInt 2; XBytes (Some xva); XBytes (Some xva)] /\
-    snd (run sha256 (ms st1) (map logical ops2)) =
-      [XInt 2; XBytes (Some xvb); XBytes (Some xvb)] /\
-    snd (frun sha256 st1 ops2) = [XInt 2; XBytes (Some xvb); XBytes (Some xvb)].
-Proof. exists ops_before, ops_after. vm_compute. repeat split; reflexivity. Qed.
+  exists ops : list fop,
+    let st0 := st_off sha256 in
+    frun_okb sha256 st0 ops = true /\
+    skipn 5 (snd (frun_with (fstep_loaded sha256) st0 ops)) =
+      [XBytes (Some xva); XBytes (Some xva)] /\
+    skipn 5 (visible ops (snd (run sha256 (ms st0) (concat (map logical_ops ops))))) =
+      [XBytes (Some xvb); XBytes (Some xvb)] /\
+    skipn 5 (snd (frun sha256 st0 ops)) = [XBytes (Some xvb); XBytes (Some xvb)].
+Proof. exists ops_loaded. vm_compute. repeat split; reflexivity. Qed.
+
+(** A finding: a tree object whose first LoadVersion FAILED (or that has not loaded anything
+    yet) is outside the invariant: it was created with the index on, nothing has compared the
+    persisted label with the store, and GetImmutable(v).Get goes through the stale index.
+    Index on, two commits, reopen with the index off, a third commit changing the key, then
+    [FOpenAt false 9] (fails: no such version), then [FGetImm 3 k]: the code answers version
+    2's value.  ([fin_contract] excludes failing [FOpenAt]s for this reason.) *)
+Definition ops_failed : list fop :=
+  [FSet xk1 xva; FSave; FSet xk1 xvb; FSave; FOpen true; FSet xk1 xvc; FSave; FOpenAt false 9;
+   FGetImm 3 xk1].
+
+Theorem openat_failed_refuted :
+  exists ops : list fop,
+    let st0 := st_on sha256 in
+    frun_okb sha256 st0 (firstn 7 ops) = true /\
+    skipn 7 (snd (frun sha256 st0 ops)) = [XErr; XBytes (Some xvb)] /\
+    skipn 7 (visible ops (snd (run sha256 (ms st0) (concat (map logical_ops ops))))) =
+      [XErr; XBytes (Some xvc)] /\
+    let st := fst (frun sha256 st0 (firstn 8 ops)) in
+    skipf st = false /\ mlabel st = Some 2 /\ latest_version (ms st) = 3.
+Proof. exists ops_failed. vm_compute. repeat split; reflexivity. Qed.
 
 (** ** Examples: a history with the index toggled across reopens, a load of an old version, an
     idempotent re-commit, a rollback, LoadVersionForOverwriting, a different re-commit of the
-    same version number, pruning *)
+    same version number, pruning, and new tree objects that load a version directly (one of
+    them an old version while the label is stale, so that the index is rebuilt from the latest
+    version while an older one is loaded) *)
 Definition ops_example : list fop :=
   [FSet xk1 xva; FSet xk2 xvb; FSave; FGet xk1; FIter; FSet xk1 xvc; FRemove xk2; FGet xk2; FIter;
    FSave; FGetImm 1 xk2; FGetVersioned xk1 1; FOpen true; FSet xk3 xva; FSave; FOpen false;
    FGet xk3; FIterImm 3; FLoad 2; FGet xk1; FIter; FSet xk3 xva; FSave; FGet xk3; FIter;
    FSet xk2 xva; FRollback; FGet xk2; FLvfo 2; FGet xk3; FIter; FSet xk1 xva; FSave; FGet xk1;
    FGetImm 3 xk1; FGetImm 2 xk1; FPrune 1; FGetVersioned xk1 2; FGetVersioned xk1 1;
-   FIterImm 3; FIterImm 2].
+   FIterImm 3; FIterImm 2;
+   FOpen true; FSet xk2 xvb; FSave; FOpenAt false 3; FGet xk2; FGetImm 4 xk2;
+   FGetVersioned xk2 4; FIter; FIterImm 4; FSet xk2 xvb; FSave; FGet xk2; FIter;
+   FOpenAt true 2; FGet xk1; FOpenAt false 0; FGet xk2; FIter].
 
 Example example_in_contract :
   init_ok 0 false /\ frun_okb sha256 (st_on sha256) ops_example = true.
 Proof. split; [unfold init_ok; lia|vm_compute; reflexivity]. Qed.
 
-(** the idempotent re-commit of version 3 (23rd operation) succeeds, and the index is in use
-    at the end *)
+Definition example_outs : list out := snd (frun sha256 (st_on sha256) ops_example).
+Definition example_final : fstate := fst (frun sha256 (st_on sha256) ops_example).
+
+(** the idempotent re-commits (23rd and 52nd operations) succeed and return the hash of the
+    first commit of that version; the [FOpenAt false 3] with a stale label rebuilds the index
+    for version 4 while version 3 is loaded; the index is in use at the end *)
 Example example_nontrivial :
-  nth 22 (snd (frun sha256 (st_on sha256) ops_example)) XErr =
-    nth 14 (snd (frun sha256 (st_on sha256) ops_example)) XOk /\
-  nth 14 (snd (frun sha256 (st_on sha256) ops_example)) XErr <> XErr /\
-  let st := fst (frun sha256 (st_on sha256) ops_example) in
-  fidx st = [(xk1, (3, xva))] /\ dlabel st = Some 3 /\ skipf st = false /\
-  available (ms st) = [2; 3].
+  nth 22 example_outs XErr = nth 14 example_outs XOk /\
+  nth 14 example_outs XErr <> XErr /\
+  nth 51 example_outs XErr = nth 43 example_outs XOk /\
+  nth 43 example_outs XErr <> XErr /\
+  (let st := fst (frun sha256 (st_on sha256) (firstn 45 ops_example)) in
+   version (ms st) = 3 /\ latest_version (ms st) = 4 /\ dlabel st = Some 4 /\
+   fidx st = [(xk1, (4, xva)); (xk2, (4, xvb))]) /\
+  nth 45 example_outs XErr = XBytes None /\
+  nth 46 example_outs XErr = XBytes (Some xvb) /\
+  fidx example_final = [(xk1, (4, xva)); (xk2, (4, xvb))] /\
+  dlabel example_final = Some 4 /\ skipf example_final = false /\
+  available (ms example_final) = [2; 3; 4].
 Proof.
-  vm_compute. split; [reflexivity|]. split; [discriminate|]. repeat split; reflexivity.
+  vm_compute. split; [reflexivity|]. split; [discriminate|]. split; [reflexivity|].
+  split; [discriminate|]. repeat split; reflexivity.
 Qed.
 
 Example fcoh_init_example : fcoh (st_on sha256) /\ fcoh (st_off sha256).
 Proof. split; apply fcoh_init; unfold init_ok; lia. Qed.
 
-Example fcoh_step_example :
-  let st := fst (frun sha256 (st_on sha256) ops_example) in
-  fcoh st /\ fcoh (fst (fstep sha256 st (FSet xk2 xvb))).
+Lemma example_good :
+  fgood example_final /\
+  ms example_final =
+    fst (run sha256 (ms (st_on sha256)) (concat (map logical_ops ops_example))) /\
+  example_outs =
+    visible ops_example
+      (snd (run sha256 (ms (st_on sha256)) (concat (map logical_ops ops_example)))).
 Proof.
-  cbv zeta.
-  destruct (frun_logical_from sha256 ops_example (st_on sha256)
-              (fgood_opened sha256 0 false false ltac:(unfold init_ok; lia))
-              (frun_okb_sound sha256 _ _ (proj2 example_in_contract))) as (G & _ & _).
-  split; [exact (fg_coh _ G)|].
-  apply fcoh_step; [exact (fg_inv _ G)|exact (fg_contig _ G)| |exact (fg_coh _ G)].
-  split; exact Logic.I.
+  exact (frun_logical_from sha256 ops_example (st_on sha256)
+           (fgood_opened sha256 0 false false (proj1 example_in_contract))
+           (frun_okb_sound sha256 _ _ (proj2 example_in_contract))).
+Qed.
+
+Example fcoh_step_example :
+  fcoh example_final /\
+  fcoh (fst (fstep sha256 example_final (FSet xk2 xvb))) /\
+  fcoh (fst (fstep sha256 example_final (FOpenAt false 2))).
+Proof.
+  destruct example_good as (G & _ & _).
+  split; [exact (fg_coh _ G)|]. split.
+  - apply fcoh_step; [exact (fg_inv _ G)|exact (fg_contig _ G)| |exact (fg_coh _ G)].
+    split; exact Logic.I.
+  - apply fcoh_step; [exact (fg_inv _ G)|exact (fg_contig _ G)| |exact (fg_coh _ G)].
+    split; [exact Logic.I|]. apply (proj2 (fin_contractb_sound sha256 example_final (FOpenAt false 2)
+      ltac:(vm_compute; reflexivity))).
 Qed.
 
 (** the answers computed through the index agree with MTree on the whole history, by
     computation and by the theorem *)
 Example frun_logical_example_computed :
   snd (frun sha256 (st_on sha256) ops_example) =
-  snd (run sha256 (ms (st_on sha256)) (map logical ops_example)).
+  visible ops_example
+    (snd (run sha256 (ms (st_on sha256)) (concat (map logical_ops ops_example)))).
 Proof. vm_compute. reflexivity. Qed.
 
 Example frun_logical_example :
-  snd (frun sha256 (st_on sha256) ops_example) =
-  snd (run sha256 (ms (st_on sha256)) (map logical ops_example)) /\
-  fcoh (fst (frun sha256 (st_on sha256) ops_example)).
-Proof.
-  destruct (frun_logical sha256 0 false false ops_example (proj1 example_in_contract)
-              (frun_okb_sound sha256 _ _ (proj2 example_in_contract))) as (_ & _ & E & Co).
-  split; assumption.
-Qed.
+  example_outs =
+    visible ops_example
+      (snd (run sha256 (ms (st_on sha256)) (concat (map logical_ops ops_example)))) /\
+  fcoh example_final.
+Proof. destruct example_good as (G & _ & E). split; [exact E|exact (fg_coh _ G)]. Qed.
 
 Example fstep_logical_example :
   let st := fst (frun sha256 (st_on sha256) (firstn 19 ops_example)) in
@@ -841,19 +896,39 @@ Example fstep_logical_example :
   snd (fstep sha256 st (FGetImm 3 xk3)) = snd (step sha256 (ms st) (logical (FGetImm 3 xk3))).
 Proof. vm_compute. repeat split; reflexivity. Qed.
 
+(** a new tree object loading version 2 directly, against MTree's [OReopen; OLoad 2] *)
+Example fstep_logical_openat_example :
+  let st := fst (frun sha256 (st_on sha256) (firstn 44 ops_example)) in
+  (* index off, label stale: Some 3 while 4 is the latest *)
+  skipf st = true /\ dlabel st = Some 3 /\ latest_version (ms st) = 4 /\
+  snd (do_load (fresh_ms (ms st)) 2) <> XErr /\
+  ms (fst (fstep sha256 st (FOpenAt false 2))) = fst (run sha256 (ms st) [OReopen; OLoad 2]) /\
+  snd (fstep sha256 st (FOpenAt false 2)) = XInt 4 /\
+  last (snd (run sha256 (ms st) [OReopen; OLoad 2])) XErr = XInt 4 /\
+  dlabel (fst (fstep sha256 st (FOpenAt false 2))) = Some 4 /\
+  (* a failing one: the object stays unloaded *)
+  fstep sha256 st (FOpenAt false 7) =
+    (FS (fresh_ms (ms st)) (fidx st) (dlabel st) (dlabel st) false [] [], XErr).
+Proof.
+  vm_compute. split; [reflexivity|]. split; [reflexivity|]. split; [reflexivity|].
+  split; [discriminate|]. repeat split; reflexivity.
+Qed.
+
 (** the persisted invariant, observed: the values of the index are the pairs of the latest
     tree at the end of the history *)
 Example idx_valid_example :
-  let st := fst (frun sha256 (st_on sha256) ops_example) in
-  mapv (fun e : Z * bytes => snd e) (fidx st) = oelems (ltree (ms st)).
+  mapv (fun e : Z * bytes => snd e) (fidx example_final) = oelems (ltree (ms example_final)).
 Proof. vm_compute. reflexivity. Qed.
 
 Print Assumptions fcoh_init.
 Print Assumptions fcoh_step.
 Print Assumptions fstep_logical.
+Print Assumptions fstep_logical_openat.
+Print Assumptions fstep_openat_error.
 Print Assumptions frun_logical.
 Print Assumptions frun_logical_from_init.
 Print Assumptions recommit_colliding_hash_refuted.
 Print Assumptions drop_label_refuted.
 Print Assumptions rebuild_from_loaded_refuted.
+Print Assumptions openat_failed_refuted.
 Print Assumptions rebuild_from_loaded_unobservable.
